@@ -267,6 +267,9 @@ def run(tier, seed, replay=None):
         case = by_case[cid]
         if cid in s2.removed:
             rep.count("compile_failed(C01)")
+            d0 = (s2.diags.get(cid) or [{}])[0]
+            rep.notes.setdefault("compile_failed_cases", []).append(
+                {"case": cid, "code": d0.get("code"), "msg": (d0.get("message") or "")[:160]})
             continue
         types = {t["id"]: t for t in res["types"]}
         failed = {m: d for m, d in s2.bounds_failed.get(cid, [])}
